@@ -3,7 +3,7 @@ from collections import OrderedDict
 
 from rules.common import *  # noqa: F401,F403
 from rules.storefacts import field_of
-from rules.c13 import chase_mentions
+from rules.c13 import chase_mentions, is_cli_item_limit
 from rules.c17 import chase_calls, natural_loop
 import callgraph
 from rules import builderfacts
@@ -49,7 +49,7 @@ def r1(ctx):
         cfgs = [cfg for cfg, _st, _e in bf["news"]]
         rep.check(all(field_of(c, "timeout_secs") == 60 for c in cfgs), "%s:timeout" % fn, "timeout 60 s", "%s configures a %s s idle timeout (60 s in the sibling / documented)" % (fn, short(field_of(cfgs[0], "timeout_secs"), 20)), b.loc())
         rep.check(all(field_of(c, "connection_limit") == F(P("config"), "connection_limit") for c in cfgs), "%s:connection_limit" % fn, "connection_limit <- args.connection_limit", "%s passes %s as connection_limit" % (fn, short(field_of(cfgs[0], "connection_limit"), 60)), b.loc())
-        rep.check(all(F(P("config"), "item_size_limit") in atoms(field_of(c, "item_memory_limit")) for c in cfgs), "%s:item_size_limit" % fn, "item_memory_limit <- args.item_size_limit", "%s passes %s as item_memory_limit" % (fn, short(field_of(cfgs[0], "item_memory_limit"), 60)), b.loc())
+        rep.check(all(is_cli_item_limit(field_of(c, "item_memory_limit")) for c in cfgs), "%s:item_size_limit" % fn, "item_memory_limit <- args.item_size_limit", "%s passes %s as item_memory_limit" % (fn, short(field_of(cfgs[0], "item_memory_limit"), 60)), b.loc())
         rep.check(all(field_of(c, "listen_backlog") == F(P("config"), "backlog_limit") for c in cfgs), "%s:backlog" % fn, "listen_backlog <- args.backlog_limit", "%s passes %s as listen_backlog" % (fn, short(field_of(cfgs[0], "listen_backlog"), 60)), b.loc())
         rep.check(bool(bf["runs"]), "%s:run" % fn, "the server is started", "%s never starts the server" % fn, b.loc())
         okaddr = bool(bf["runs"])
